@@ -39,7 +39,12 @@ def run(report, p):
             raise AnalysisError(f"{t.qual}: expected a listing loop and a recursion loop at top level, found {len(fors)} loops")
         l1, l2 = fors
         # listing loop: append((name, isdir(join(top,name))))
-        ok_it = is_plain_iter(p, l1.iter) and all(o[0] == "call" and o[1].endswith(("os.listdir", "os.scandir")) for o in pr.origins(l1.iter, t))
+        def _is_listing(o):
+            while o[0] == "call" and o[1] in ("builtin:sorted", "builtin:list") and o[2]:
+                o = o[2][0]
+            return o[0] == "call" and o[1].endswith(("os.listdir", "os.scandir"))
+
+        ok_it = is_plain_iter(p, l1.iter) and all(_is_listing(o) for o in pr.origins(l1.iter, t))
         r1.check(ok_it, t, l1.iter, "the listing loop iterates a slice / filtered view of the directory listing", construct=l1.iter)
         apps = [x for s in l1.body for x in ast.walk(s) if isinstance(x, ast.Call) and isinstance(x.func, ast.Attribute) and x.func.attr == "append"]
         ok_app = len(apps) == 1 and isinstance(apps[0].args[0], ast.Tuple) and len(apps[0].args[0].elts) == 2 and norm(apps[0].args[0].elts[0]) == norm(l1.target)
